@@ -1,5 +1,12 @@
 package hotline
 
+import (
+	"io"
+	"log/slog"
+	"sync"
+	"time"
+)
+
 // Shared reference encoders (written from the Hotline 1.9 protocol document, not from the code under test).
 
 func refU16(x int) []byte { return []byte{byte(x >> 8), byte(x)} }
@@ -53,3 +60,90 @@ func refTransaction(t *Transaction, fields [][]byte) []byte {
 	return out
 }
 
+
+// ---- stubs for connection-level harnesses -----------------------------------------------------------
+
+type vAcctStub struct {
+	exists   bool
+	account  Account
+	getCalls []string
+	mutated  int
+}
+
+func (m *vAcctStub) Create(a Account) error                { m.mutated++; return nil }
+func (m *vAcctStub) Update(a Account, newLogin string) error { m.mutated++; return nil }
+func (m *vAcctStub) Delete(login string) error             { m.mutated++; return nil }
+func (m *vAcctStub) List() []Account                       { return nil }
+func (m *vAcctStub) Get(login string) *Account {
+	m.getCalls = append(m.getCalls, login)
+	if !m.exists || login != m.account.Login {
+		return nil
+	}
+	a := m.account
+	return &a
+}
+
+type vBanStub struct {
+	banned  bool
+	until   *time.Time
+	queries []string
+	added   int
+}
+
+func (b *vBanStub) Add(ip string, until *time.Time) error { b.added++; return nil }
+func (b *vBanStub) IsBanned(ip string) (bool, *time.Time) {
+	b.queries = append(b.queries, ip)
+	return b.banned, b.until
+}
+
+type vSeeker struct{ text []byte; off int }
+
+func (s *vSeeker) Read(p []byte) (int, error) {
+	if s.off >= len(s.text) {
+		return 0, io.EOF
+	}
+	n := copy(p, s.text[s.off:])
+	s.off += n
+	return n, nil
+}
+func (s *vSeeker) Seek(o int64, w int) (int64, error) { s.off = int(o); return o, nil }
+
+// The server's outbox is an unbuffered channel drained by another goroutine in the real server. Symbolically a send
+// just queues; natively (replay) a collector goroutine plays the drainer.
+var vOutboxMu sync.Mutex
+var vOutboxGot []Transaction
+
+func vStartOutbox(s *Server) {
+	if vSymbolic() {
+		return
+	}
+	vOutboxMu.Lock()
+	vOutboxGot = nil
+	vOutboxMu.Unlock()
+	go func() {
+		for t := range s.outbox {
+			vOutboxMu.Lock()
+			vOutboxGot = append(vOutboxGot, t)
+			vOutboxMu.Unlock()
+		}
+	}()
+}
+
+func vDrainOutbox(s *Server) []Transaction {
+	if !vSymbolic() {
+		time.Sleep(20 * time.Millisecond)
+		vOutboxMu.Lock()
+		defer vOutboxMu.Unlock()
+		out := vOutboxGot
+		vOutboxGot = nil
+		return out
+	}
+	var out []Transaction
+	for len(s.outbox) > 0 {
+		out = append(out, <-s.outbox)
+	}
+	return out
+}
+
+// vLogger: a real logger that discards (logging is a no-op in the symbolic run).
+func vLogger() *slog.Logger { return slog.New(slog.NewTextHandler(io.Discard, nil)) }
